@@ -4,7 +4,7 @@ from vlib import Chars, cps
 
 # delimiter pool (C07/C08/C01/C18): with / without self-overlap, multi-byte, identical, space-containing
 PAIRS = [("<", ">"), ("<!-- <", "> -->"), ("/* <", "> */"), ("// --", "-- //"), ("aab", "bba"), ("%%", "%%"),
-         ("„Ää", "„Äã"), ("<<", ">>"), (" <", " >"), ("-->", "<!--")]
+         ("„Ää", "„Äã"), ("<<", ">>"), (" <", " >"), ("-->", "<!--"), ("„ÅÇ„ÅÇ„ÅÑ", "„ÅÑ„ÅÑ„ÅÇ"), ("√©√©-", "-√©√©")]
 
 
 def alphabet(ds, de, fillers):
@@ -76,7 +76,8 @@ def atoms_jobs(ctx, invariants, ops, nontrivial, pairs=None, extra=("a", " ", "√
     pool = pairs or [p for p in PAIRS if len(p[0]) > 1]
     if ctx.quick:
         k = ctx.seed % len(pool)
-        pool = [("<!-- <", "> -->")] + [p for p in (pool[k:] + pool[:k]) if p != ("<!-- <", "> -->")][:2]
+        fixed = [("<!-- <", "> -->"), ("„ÅÇ„ÅÇ„ÅÑ", "„ÅÑ„ÅÑ„ÅÇ")]        # a long ASCII pair and a multi-byte self-overlapping pair, always
+        pool = fixed + [p for p in (pool[k:] + pool[:k]) if p not in fixed][:2]
     for (ds, de) in pool:
         atoms = delim_atoms(ds, de, extra)
         budget = 45000 if ctx.quick else 600000
@@ -152,6 +153,7 @@ def check_C01(ctx):
     # unwrap-blocks with tags sitting on their wrapper lines (children merged into head and tail), nesting
     gens = [lines_gen(6 if q else 8, 3, 3, ["Ru", "R", "P"], blank=False),
             lines_gen(7 if q else 9, 2, 2, ["Ru", "Pu", "R"], blank=True, base=1),
+            lines_gen(7 if q else 9, 2, 2, ["Ru"], blank=False, pairs=True, max_code=4),     # touching removed regions + unwrap
             lines_gen(14, 3, 5, ["Ru", "R", "P", "Pu", "T", "S"], free=(0, 2), ws=(2,), simulate=(40 if q else 5000, 14))]
     ctx.job("unwrap-wrapper-tags", gens=gens, invariants=["Inv_C01"], ops=ops, cfg={"ds": "<", "de": ">"}, nontrivial=has_ready)
     junk_jobs(ctx, ["Inv_C01"], ops, None)
@@ -173,11 +175,11 @@ K = {"T1": ["T1", False], "T2": ["T2", False], "T3": ["T3", False], "T1u": ["T1"
 
 
 def lines_gen(L, D, E, kinds, unit="  ", base=0, free=(), ws=(), blank=True, suffix="", simulate=None, code_a="", code_b="",
-              mb=False, max_code=99, empty_default=False):
+              mb=False, max_code=99, empty_default=False, pairs=False):
     from vlib import TlaSet
     g = {"base": "GenLines", "constraint": "Feasible",
          "consts": {"L": L, "D": D, "E": E, "Kinds": TlaSet([K[k] for k in kinds]), "Unit": Chars(unit), "Base": base,
-                    "FreeInd": TlaSet(list(free)), "WsLens": TlaSet(list(ws)), "Blank": blank, "Suffix": Chars(suffix), "CodeA": Chars(code_a), "CodeB": Chars(code_b), "MbCode": mb, "MaxCode": max_code, "EmptyDefault": empty_default,
+                    "FreeInd": TlaSet(list(free)), "WsLens": TlaSet(list(ws)), "Blank": blank, "Suffix": Chars(suffix), "CodeA": Chars(code_a), "CodeB": Chars(code_b), "MbCode": mb, "MaxCode": max_code, "EmptyDefault": empty_default, "PairLines": pairs,
                     "PastTo": Chars(PAST), "FutureTo": Chars(FUTURE),
                     "Tos": [Chars(t) for t in TOS], "Names": [Chars(n) for n in MNAMES]}}
     if simulate:
@@ -243,6 +245,7 @@ def unwrap_jobs(ctx, invariants, ops, lite=False):
                 lines_gen(11, 2, 3, ["Ru", "R"], blank=False, max_code=5, empty_default=True),   # removed sibling before a nested pair
                 lines_gen(8 - d // 2, 2, 2, ["Ru", "Pu"], base=1, blank=False),
                 lines_gen(6, 1, 1, ["Tu"], unit="\t", free=(0, 2), blank=False, suffix="„ÅÇ"),
+                lines_gen(7 - d // 2, 1, 1, ["Ru"], blank=False, pairs=True, max_code=4),          # touching removed inline regions
                 lines_gen(6, 1, 1, ["Ru"], free=(0, 2), blank=False, base=1, code_b=" = 1"),       # interior blanks at the tag column
                 lines_gen(6, 1, 1, ["Ru"], unit="\t", free=(0, 2), blank=False, base=1, code_a=" "),
                 lines_gen(16, 3, 4, ["Ru", "R", "P", "Pu", "S"], free=(0, 1, 2), ws=(2,), simulate=(15 if lite else 80, 16))]
@@ -255,6 +258,7 @@ def unwrap_jobs(ctx, invariants, ops, lite=False):
                            lines_gen(13, 2, 3, ["Ru", "R"], blank=False), lines_gen(12, 3, 4, ["Ru", "R", "P"], blank=False, base=1),
                            lines_gen(14, 3, 3, ["Ru"], blank=False)]),
         ("unwrap-tab", [lines_gen(8, 1, 1, ["Tu"], unit="\t", free=(0, 1, 2), blank=False, suffix="„ÅÇ")]),
+        ("unwrap-pairs", [lines_gen(9, 2, 2, ["Ru", "P"], blank=False, pairs=True, max_code=5)]),
         ("unwrap-interior-blanks", [lines_gen(8, 1, 1, ["Ru"], free=(0, 1, 2), blank=False, base=1, code_b=" = 1"),
                                     lines_gen(8, 1, 1, ["Ru"], unit="\t", free=(0, 2), blank=False, base=1, code_a=" "),
                                     lines_gen(9, 2, 2, ["Ru", "R"], unit="    ", free=(0,), blank=False, base=1, code_b=" = 1 ")]),
